@@ -68,6 +68,11 @@ def templates(facts):
         for v in path.env.values():
             if isinstance(v, tuple) and v and v[0] == 'unpack' and v[1] == ('attr', item, 'args') and isinstance(v[3], int):
                 arity = v[3] if v[3] > 0 else ('min', -v[3] - 1)
+        if arity is None:
+            # the unpacking may sit in a helper that builds the instruction: read it off the values that were built
+            for val, node in r['app_values']:
+                for u in IS.find_all(val, lambda t: t[0] == 'unpack' and t[1] == ('attr', item, 'args') and len(t) > 3 and isinstance(t[3], int)):
+                    arity = u[3] if u[3] > 0 else ('min', -u[3] - 1)
         insts = []
         made = {}
         for v, n in r['acc'].new_values:
@@ -165,6 +170,8 @@ def run(repo, tier):
                 continue
             cls, got_base, srcs, node, raw = insts[0]
             exp_arity = len(ops)
+            if arity is None and exp_arity > 0:
+                raise AnalysisError('{}: how many operands the expansion takes is not established (no unpacking of item.args is seen)'.format(name))
             ar_ok = (arity == exp_arity) or (arity is None and exp_arity == 0)
             rep.check(ar_ok, 'R5.1.arity', '{}: takes {} operand(s)'.format(name, exp_arity),
                       lambda name=name, arity=arity, node=node: Finding('R5.1.arity', 'transform_pseudo_instructions', node,
